@@ -5,6 +5,7 @@
    conversion never throws."
 -/
 import Cellml.Num.Proofs3
+import Cellml.Num.Positions
 namespace Cellml.Props.C16
 open Cellml.Num
 
@@ -71,5 +72,44 @@ theorem C16_pinned_throws : convertToDoubleClassWith false ['-'] = .throws ∧
 
 theorem C16_pinned_not_spec : ¬ SpecReal ['-'] ∧ ¬ SpecReal ['.'] ∧ ¬ SpecReal ['-', '.'] := by
   refine ⟨?_, ?_, ?_⟩ <;> exact fun h => absurd ((cellmlReal_iff _).mpr h) (by decide)
+
+end Cellml.Props.C16
+
+namespace Cellml.Props.C16
+open Cellml.Num
+
+/-! ### every position where a number is read (C16: "in every attribute/element position") -/
+
+/-- exponent / multiplier of a unit: no issue ⇔ CellML real within the range of `double` -/
+theorem C16_pos_real (sp : List (List Char)) (s : List Char) :
+    (issueAt sp .exponent s = false ↔ SpecReal s ∧ doubleInRange s = true) ∧
+    (issueAt sp .multiplier s = false ↔ SpecReal s ∧ doubleInRange s = true) := by
+  simp only [issueAt, realOK, Bool.not_eq_false', Bool.and_eq_true, cellmlReal_iff, and_self]
+
+/-- reset order and the exponent part of an e-notation `cn`: no issue ⇔ CellML integer within `int` -/
+theorem C16_pos_int (sp : List (List Char)) (s : List Char) :
+    (issueAt sp .order s = false ↔ SpecInt s ∧ intInRange s = true) ∧
+    (issueAt sp .cnExponent s = false ↔ SpecInt (trim s) ∧ intInRange (trim s) = true) := by
+  simp only [issueAt, intOK, Bool.not_eq_false', Bool.and_eq_true, cellmlInt_iff, and_self]
+
+/-- `cn` content (plain and the mantissa of e-notation): no issue ⇔ basic real within range, white space trimmed -/
+theorem C16_pos_cn (sp : List (List Char)) (s : List Char) :
+    (issueAt sp .cnReal s = false ↔ SpecBasicReal (trim s) ∧ doubleInRange (trim s) = true) ∧
+    (issueAt sp .cnMantissa s = false ↔ SpecBasicReal (trim s) ∧ doubleInRange (trim s) = true) := by
+  simp only [issueAt, basicRealOK, Bool.not_eq_false', Bool.and_eq_true, basicReal_iff, and_self]
+
+/-- prefix: no issue ⇔ empty, an SI prefix name, or a CellML integer within `int` -/
+theorem C16_pos_prefix (sp : List (List Char)) (s : List Char) :
+    issueAt sp .pfx s = false ↔ s = [] ∨ s ∈ sp ∨ (SpecInt s ∧ intInRange s = true) := by
+  simp only [issueAt, intOK, Bool.and_eq_false_iff, Bool.not_eq_false', List.isEmpty_iff, List.contains_iff_mem,
+    Bool.and_eq_true, cellmlInt_iff, or_assoc]
+
+/-- initial value: no issue ⇔ empty or a CellML real (a reference to a variable is decided before the number test) -/
+theorem C16_pos_initial (sp : List (List Char)) (s : List Char) :
+    issueAt sp .initialValue s = false ↔ s = [] ∨ SpecReal s := by
+  simp only [issueAt, Bool.and_eq_false_iff, Bool.not_eq_false', List.isEmpty_iff, cellmlReal_iff]
+
+example : issueAt [] .cnExponent " 2147483648 ".toList = true ∧ issueAt [] .cnExponent " -2147483648".toList = false := by decide
+example : issueAt ["kilo".toList] .pfx "kilo".toList = false ∧ issueAt ["kilo".toList] .pfx "kil".toList = true := by decide
 
 end Cellml.Props.C16
